@@ -8,7 +8,7 @@ export CARGO_NET_OFFLINE=true
 git -C /repo worktree remove --force $WT 2>/dev/null
 git -C /repo worktree add --detach $WT HEAD >/dev/null 2>&1 || exit 2
 : > "$LOG"
-for d in "$ROOT"/C*/[0-9]*; do
+for d in "$ROOT"/[CG]*/[0-9]*; do
   [ -f "$d/patch.diff" ] || continue
   id=$(basename $(dirname $d))/$(basename $d)
   cd $WT && git checkout -q -- . && rm -f tests/demo.rs
